@@ -13,6 +13,7 @@ R03.4 call_action: pops productions[prod_num].len (non-skip) children, calls the
 R03.5 table construction cannot be reached with a start symbol that occurs on a right-hand side (C12 R12.1, which is
       evaluated by check C12; here only that calculate_lalr1_parse_table's callers pass augmented grammars is
       recorded as an assumption).
+R03.7 = all C18 rules re-evaluated (terminal identity in the grammar handed to lalry).
 R03.6 on Accept the final reduction uses the production whose left-hand side is the start symbol (searched, not assumed first).
 The correctness of the table built by the external crate lalry is NOT decided.
 """
@@ -270,3 +271,7 @@ def check(ctx):
     # Accept action is shared with nested occurrences of the start symbol (non-sentences are accepted)
     from . import c12
     c12.check(ctx)
+    # R03.7 = C18's rules (added after seed C03-c): the grammar handed to lalry numbers terminals by parol's terminal identity;
+    # a conversion that merges distinct terminals builds the table of another grammar (sentences rejected, non-sentences accepted)
+    from . import c18
+    c18.check(ctx)
